@@ -446,12 +446,26 @@ class NumpyProxy:
             return out
         if isinstance(a, SymArray) and dtype is None:
             return a  # keeps the modelled dtype (real numpy would return the array itself too)
+        if _fl(dtype) and E.ENGINE.active and self._has_sym(a):
+            self._ov("asarray")
+            return _np.asarray(a, dtype=object)  # a float buffer cannot hold terms (exact-real semantics)
         return _np.asarray(a, dtype=dtype, **kw)
 
     def array(self, a, dtype=None, **kw):
         if isinstance(dtype, SymDType):
             return self.asarray(a, dtype=dtype)
+        if _fl(dtype) and E.ENGINE.active and self._has_sym(a):
+            self._ov("array")
+            return _np.array(a, dtype=object)
         return _np.array(a, dtype=dtype, **kw)
+
+    @staticmethod
+    def _has_sym(a):
+        try:
+            arr = _np.asarray(a, dtype=object)
+        except Exception:  # noqa: BLE001
+            return False
+        return any(isinstance(x, (SymNum, SymBool)) for x in arr.ravel())
 
     # ---- dtype arithmetic on modelled dtypes (delegated to real numpy on the modelled names)
     def _dt(self, d):
